@@ -80,6 +80,16 @@ Definition http_client_roundtrip (cfg : hdrs) (req_host : string) (req_hdr : hdr
 (* responseHeadersHandler: w.Header() when the wrapped handler is entered *)
 Definition http_response_headers (cfg : hdrs) (h : hdrs) : hdrs := http_set_all cfg h.
 
+(* ---- what the consumers give back ------------------------------------------------------------------
+   headerRoundTripper.RoundTrip ends with `return interceptor.transport.RoundTrip(req)`, the grpc
+   interceptors with `return invoker(addHeadersIfAbsent(ctx), ...)` / `return streamer(...)`: the result
+   — in particular the ERROR of a failed request, which exporters log and propagate — is the next
+   layer's result, untouched; the request (which by now holds the plain secrets) is not rendered. *)
+Inductive outcome := Done (what : string) | Fail (err : string).
+
+Definition http_client_result (cfg : hdrs) (next : outcome) : outcome := next.
+Definition grpc_call_result (cfg : hdrs) (next : outcome) : outcome := next.
+
 (* ---- grpc metadata ------------------------------------------------------------------------------ *)
 Definition md := list (string * list string).
 
@@ -140,3 +150,15 @@ Definition load_certificate_gen (c : tlscfg) : tls_load :=
   else if hkf && hkp then TlsErrKeyTwice
   else TlsPair (if hcf then FromFile (t_CertFile c) else FromPem (t_CertPem c))
                (if hkf then FromFile (t_KeyFile c) else FromPem (t_KeyPem c)).
+
+(* the error text of a failed load: three fixed messages, or the loader's own error behind a fixed
+   prefix; the PEM bytes are not part of it *)
+Definition tls_error_text (r : tls_load) (loader_err : string) : option string :=
+  match r with
+  | TlsErrBothOrNeither => Some "for auth via TLS, provide both certificate and key, or neither"
+  | TlsErrCertTwice => Some "for auth via TLS, provide either a certificate or the PEM-encoded string, but not both"
+  | TlsErrKeyTwice => Some "for auth via TLS, provide either a key or the PEM-encoded string, but not both"
+  | TlsNoCertificate => None
+  | TlsPair _ _ => if String.eqb loader_err "" then None
+                   else Some ("failed to load TLS cert and key PEMs: " ++ loader_err)
+  end.
